@@ -164,6 +164,10 @@ def run(ctx):
         else:
             pre = sg.base_pre(vars_, types=types or (TYPES + ["UNSUPPORTED", "MISSING"]))
         registry = {"bb": (["i"], ["o"])} if reg else {}
+        if reg and "bb.i" not in U and "bb.o" in U:
+            registry = {"bb": ([], ["o"])}  # universes without the input pin: a box that only has the output pin (else the pin rule always fires)
+        elif reg and "bb.o" not in U and "bb.i" in U:
+            registry = {"bb": (["i"], [])}
         fail_fast, unloaded, undriven, single = fl
 
         def op(c, fl=fl):
